@@ -346,9 +346,152 @@ class Normalizer:
             cur = Body(F, j)
         if j is None:
             return body
+        try:
+            self._thread_jumps(j)
+        except Exception as ex:   # noqa - threading is an optional refinement
+            self.log.append((j["def"], "thread-error", repr(ex)[:80]))
         nb = Body(F, j)
         nb.normalized = True
         return nb
+
+    # ------------------------------------------------------------------ jump threading
+    def _thread_jumps(self, j):
+        """A value built as `Ok(..)` in one block and as `Err(..)` in another (the return sites of a spliced helper, the
+        arms of an expanded combinator) and then matched (`match r`, `r?`) after the paths have joined: each building
+        site gets its own copy of the (straight-line) way to the match, ending in the arm its variant selects.  The
+        paths of the two variants no longer share blocks, so reachability questions ("which error codes continue the
+        loop?") get the same answer as for the hand-inlined code."""
+        import lib
+        for _round in range(40):
+            cur = Body(self.F, j)
+            done = False
+            for W in sorted(cur.reachable):
+                t = cur.blocks[W]["t"]
+                if t["k"] != "switch" or cur.blocks[W].get("threaded"):
+                    continue
+                c = lib.decode_switch(cur, W)
+                if c is None or c.kind != "enum" or c.place is None or [p for p in c.place["p"] if p["k"] != "deref"]:
+                    continue
+                L = c.place["l"]
+                # only the discriminant read (and storage markers) before the switch
+                if any(s["k"] == "assign" and not (s["rv"]["k"] == "discr") for s in cur.blocks[W]["s"]):
+                    continue
+                plan = self._thread_plan(cur, W, L, c)
+                if not plan:
+                    continue
+                for (P, chain, arm_target, pre) in plan:
+                    self._apply_thread(j, P, chain, W, arm_target, pre)
+                done = True
+                break
+            if not done:
+                break
+
+    def _thread_plan(self, cur, W, L, c):
+        """[(building block P, chain of blocks P->..->W (exclusive P, inclusive W), target arm, extra statements)]"""
+        import lib
+        t = cur.blocks[W]["t"]
+        # what L holds: directly built variants, or Try::branch of a built value
+        defsL = [d for d in cur.defs.get(L, []) if not (d[2] and not all(p["k"] == "deref" for p in d[2]))]
+        viaTry = None
+        if len(defsL) == 1 and defsL[0][3] == "call" and canon(defsL[0][4]["fn"].get("def") or "") == "std::ops::Try::branch":
+            a0 = defsL[0][4]["args"][0] if defsL[0][4]["args"] else None
+            if a0 is None or a0["k"] not in ("copy", "move") or [p for p in a0["pl"]["p"] if p["k"] != "deref"]:
+                return None
+            viaTry = (defsL[0][0], a0["pl"]["l"])          # (block of the Try::branch call, its operand local)
+            if cur.blocks[viaTry[0]]["t"].get("t") != W:
+                return None
+        src_local = viaTry[1] if viaTry else L
+        srcs = lib.variant_sources(cur, src_local)
+        if not srcs or len(srcs) < 2 or all(v is None for v, _b in srcs):
+            return None
+        if len({b for _v, b in srcs}) != len(srcs):
+            return None
+        plan = []
+        for v, P in srcs:
+            if v is None:
+                continue                     # made by a call / projection: this way keeps going to the shared switch
+            if P == W or P not in cur.reachable:
+                return None
+            # straight-line way from P to W
+            chain = []
+            x = P
+            ok = False
+            for _ in range(16):
+                succ = cur.succ[x]
+                if len(succ) != 1:
+                    break
+                x = succ[0]
+                if x in chain or x == P:
+                    break
+                chain.append(x)
+                if x == W:
+                    ok = True
+                    break
+                if cur.blocks[x]["t"]["k"] == "yield":
+                    break
+            if not ok:
+                continue
+            if viaTry and viaTry[0] not in chain:
+                continue
+            # the built value must be what the switch looks at: follow the moves along the chain
+            holders = None
+            for d in cur.defs.get(src_local, []):
+                pass
+            vv = {"Ok": "Continue", "Some": "Continue", "Err": "Break", "None": "Break"}.get(v, v) if viaTry else v
+            arm = None
+            names = c.variants
+            for val, tg in t["arms"]:
+                if names.get(val) == vv:
+                    arm = tg
+            if arm is None:
+                covered = {names.get(val) for val, _tg in t["arms"]}
+                if vv in names.values() and vv not in covered:
+                    arm = t["otherwise"]
+            if arm is None:
+                continue
+            if cur.blocks[P].get("threaded_from") == W:
+                continue
+            plan.append((P, chain, arm, (viaTry, v)))
+        return plan
+
+    def _apply_thread(self, j, P, chain, W, arm_target, pre):
+        viaTry, v = pre
+        blocks = j["blocks"]
+        m = {}
+        for x in chain:
+            nb = copy.deepcopy(blocks[x])
+            nb["threaded"] = True
+            blocks.append(nb)
+            m[x] = len(blocks) - 1
+        for x in chain:
+            nb = blocks[m[x]]
+            t = nb["t"]
+            if x == W:
+                nb["t"] = {"k": "goto", "t": arm_target, "sp": t["sp"], "was": "threaded-switch"}
+                continue
+            if viaTry and x == viaTry[0]:
+                # Try::branch of a value known to be V: Continue(payload) / Break(residual)
+                src = t["args"][0]
+                if v in ("Ok", "Some"):
+                    adt = "std::result::Result" if v == "Ok" else "std::option::Option"
+                    pay = {"k": "move", "pl": {"l": src["pl"]["l"], "p": [{"k": "downcast", "v": v}, {"k": "field", "i": 0, "n": "0", "o": adt, "v": v, "t": "?"}]}}
+                    rv = {"k": "agg", "ak": "adt", "adt": "std::ops::ControlFlow", "variant": "Continue", "fields": ["0"], "ops": [pay], "def": None, "ety": None}
+                else:
+                    rv = {"k": "agg", "ak": "adt", "adt": "std::ops::ControlFlow", "variant": "Break", "fields": ["0"], "ops": [src], "def": None, "ety": None}
+                nb["s"].append({"k": "assign", "lhs": t["dest"], "rv": rv, "sp": t["sp"], "inl": "try-known"})
+                nb["t"] = {"k": "goto", "t": m[t["t"]], "sp": t["sp"], "was": "threaded-try"}
+                continue
+            # single successor: redirect to the copy of the next block
+            for key in ("t",):
+                if isinstance(t.get(key), int) and t[key] in m:
+                    t[key] = m[t[key]]
+        # P now continues into its private copy
+        blocks[P]["threaded_from"] = W
+        tp = blocks[P]["t"]
+        first = chain[0]
+        if tp["k"] in ("goto", "drop", "call", "assert", "false_edge", "false_unwind") and tp.get("t") == first:
+            tp["t"] = m[first]
+        self.log.append((j["def"], "thread", "bb%d->bb%d as %s" % (P, W, v)))
 
     def _sites(self, cur, host_root, callee_form=False):
         """call sites of `cur` to splice in this round"""
